@@ -368,6 +368,13 @@ def execute_tasks_with_dependencies(
                 )
                 if len(wait_lst) == number_waiting:
                     sleep(refresh_rate)
+            # the executor may have died with the failure of a task: the tasks which depend on that task have to fail as well
+            number_waiting = len(wait_lst) + 1
+            while 0 < len(wait_lst) < number_waiting:
+                number_waiting = len(wait_lst)
+                wait_lst = _submit_waiting_task(
+                    wait_lst=wait_lst, executor_queue=executor_queue
+                )
             executor.shutdown(wait=task_dict["wait"])
             future_queue.task_done()
             future_queue.join()
